@@ -12,6 +12,7 @@ import PP.Driver.OpsC11
 import PP.Driver.OpsC07
 import PP.Driver.OpsC19b
 import PP.Driver.OpsCLI
+import PP.Driver.OpsC19c
 /-
 Request handlers of the model driver.
 -/
@@ -190,6 +191,9 @@ def handle (j : Json) : Except String Json := do
                     | none =>
                       match PP.OpsCLI.handle op j with
                       | some r => r
-                      | none => throw s!"unknown op {op}"
+                      | none =>
+                        match PP.OpsC19c.handle op j with
+                        | some r => r
+                        | none => throw s!"unknown op {op}"
 
 end PP.Ops
